@@ -4,7 +4,7 @@ from ..pps_run import run_pps
 from ..facts import strip_generics
 
 CHA = {"tfm.lib", "tftopl.bin", "pltotf.bin", "common.lib"}
-ENTRIES = ["tfm::algorithms::tfm_to_pl", "tfm::algorithms::pl_to_tfm"]
+ENTRIES = ["tfm::algorithms::tfm_to_pl", "tfm::algorithms::pl_to_tfm", "pltotf::Cli::run", "tftopl::Cli::run"]
 NARROW = ("u8", "i8", "i16", "u16")
 
 
@@ -67,6 +67,9 @@ def narrow_only(fn, site):
     if site.kind == "K3" and site.what.startswith("Overflow:") and site.what.split(":")[1] in ("Add", "Sub", "Mul"):
         tys = site.key.split("|")[3].rsplit("#", 1)[0].split(",")
         return any(t in NARROW for t in tys)
+    # the TFM reader proper: every site kind is armed (triage of deserialize.rs complete)
+    if fn.file == "crates/tfm/src/deserialize.rs":
+        return True
     # string slicing: a byte offset that is not a character boundary panics
     if site.kind == "K4" and site.what.startswith("index:") and ("alloc::string::String" in site.what or "for str>" in site.what or "<str as" in site.what):
         return True
